@@ -265,7 +265,8 @@ class NDCollection(dict):
         """
         # If two inputs, inputs must be key_data_pairs and aligned_axes.
         if len(args) == 2:
-            key_data_pairs = args[0]
+            # The pairs are read twice below: keep them if they come from a one-shot iterator.
+            key_data_pairs = list(args[0])
             new_keys, new_data = zip(*key_data_pairs)
             new_aligned_axes = collection_utils._sanitize_aligned_axes(new_keys, new_data, args[1])
         else:  # If one arg given, input must be NDCollection.
